@@ -657,9 +657,10 @@ def check(tier, seed):
     began = time.time()
     me = __import__('simverif.props.c12', fromlist=['x'])
     extra = prepare(tier)
+    histories = core.history_batch(me, seed, tier, extra)      # first: this process has executed no run yet
     core.determinism_selftest(me, seed, tier, extra, count=60)
     n_runs, wall = BUDGET[tier]
-    batch = core.run_batch(me, seed, tier, n_runs, wall, extra)
+    batch = core.merge_batches([core.run_batch(me, seed, tier, n_runs, wall, extra), histories])
     infos = classes()
     coverage = core.coverage_from_batch(
         batch, RULE, fault_kinds=(),
